@@ -181,9 +181,166 @@ def _check_natkey(prefix):
     return True, "ok"
 
 
+EX = "orquestra.quantum.circuits.symbolic.expressions"
+INDUCTION_ASSUMES = [
+    "meaning of sympy nodes (vfw/exmodel.py): Add / Mul denote the sum / product of args, Pow(b,e) = pow(b,e) with pow(x,-1) = 1/x, sqrt(x) = pow(x,1/2), f(x) denotes f(value x)",
+    "sympy operators and functions are value-homomorphic; `e == number` implies e denotes that number; e*(-1) denotes -e and, for a supported product with leading coefficient -1, is supported and no larger than e",
+    "values are modelled as reals; only field identities are used (they hold over the complex numbers too)",
+    "sum / product of point-wise equal sequences of equal length are equal (congruence of the fold)",
+    "leaves (symbols, integers, floats, rationals, I) are checked natively (C19.roundtrip.enum), not by this induction",
+]
+
+
+def _induction_obs():
+    """Structural induction over the sympy expression grammar: for every compound node kind, ANY arity and ANY (supported)
+    children, translate_expression(expression_from_sympy(node), SYMPY_DIALECT) denotes the number the node denotes, assuming
+    the same for the children (induction hypothesis).  The real text of the three modules is executed on an abstract node."""
+    import z3
+    from vfw import exmodel as ex, sym, vcontract as vc, vrt
+    from vfw.sym import SObj, SSeq
+
+    def make_ns():
+        ex.install()
+        exprs = vc.shadow_all(EX, {"reduce": ex.reduce_stub})
+        se = vc.shadow_all(SE, {"sympy": ex.SHIM, "reduction": exprs["reduction"], "FunctionCall": exprs["FunctionCall"], "Symbol": exprs["Symbol"],
+                                "ExpressionDialect": exprs["ExpressionDialect"]})
+        tr = vc.shadow_all(TR, {"FunctionCall": exprs["FunctionCall"], "Symbol": exprs["Symbol"], "ExpressionDialect": exprs["ExpressionDialect"]})
+        real_tuple_impl = se["expression_from_sympy"].dispatch(tuple)
+        se["expression_from_sympy"].register(SObj)(ex.ih_from_sympy)
+        se["expression_from_sympy"].register(SSeq)(ex.ih_from_sympy_tuple)
+        tr["translate_expression"].register(SObj)(ex.ih_translate)
+        return {"se": se, "tr": tr, "tuple_impl": real_tuple_impl, "FunctionCall": exprs["FunctionCall"]}
+
+    def roundtrip(ns, node):
+        tree = ns["se"]["expression_from_sympy"](node)
+        return ns["tr"]["translate_expression"](tree, ns["se"]["SYMPY_DIALECT"])
+
+    spec = {"SAME_VALUE": ex.same_value}
+
+    def mk(kind):
+        def setup(args, ns):
+            ex.axioms()
+            c = sym.cur()
+            e = c.fresh("node", sym.Obj)
+            if kind in ("add", "mul"):
+                ch = ex.children("args", 2)
+                node = (ex.FAdd if kind == "add" else ex.FMul)(e, ch)
+                c.assume(sym.seq_forall(ch, lambda x: ex.SUPP(sym.lift(x))))
+                c.inputs["arity"] = ch.length()
+            elif kind == "pow":
+                b, x = ex.child("base"), ex.child("exponent")
+                node = ex.FPow(e, (b, x))
+                c.assume(z3.And(ex.SUPP(b.e), ex.SUPP(x.e)))
+            else:
+                a = ex.child("argument")
+                node = ex.FUNCS[kind](e, (a,))
+                c.assume(ex.SUPP(a.e))
+            args["node"] = node
+        return setup
+
+    out = []
+    names = {"add": "Add", "mul": "Mul", "pow": "Pow"}
+    for kind in ("add", "mul", "pow", "cos", "sin", "exp", "tan"):
+        c = vc.Contract(key=SE + ":expression_from_sympy", params={}, requires="True", ensures="SAME_VALUE(result, node)", spec=dict(spec),
+                        doc=f"round trip of a {names.get(kind, kind)} node of any arity over arbitrary supported children keeps the value (induction step)")
+
+        def run(c=c, kind=kind):
+            import time
+            t0 = time.time()
+            try:
+                fr = vc.verify(c, lambda ns, a: roundtrip(ns, a["node"]), make_ns, max_paths=200, timeout_ms=30000, setup=mk(kind))
+            except vc.Unsupported as e:
+                return core.undecided("engine-V", str(e), time.time() - t0)
+            return _fr_outcome(fr, f"{kind} node")
+        out.append(Ob(f"C19.induction[{names.get(kind, kind)}]", "proof", [SE + ":expression_from_sympy", TR + ":translate_expression", TR + ":translate_function_call", TR + ":translate_tuple",
+                                                                          EX + ":reduction"], run,
+                      f"induction step: for a {names.get(kind, kind)} node of ANY arity whose children are arbitrary supported expressions, sympy -> neutral tree -> sympy denotes the same number "
+                      "(all special cases: subtraction, division, reciprocal, square root), given the same for the children", timeout=600, assumes=INDUCTION_ASSUMES))
+
+    # the tuple handler on a tuple of ANY length: element-wise, in order
+    def run_tuple():
+        import time
+        t0 = time.time()
+        c = vc.Contract(key=SE + ":expression_tuple_from_tuple_of_sympy_args", params={}, requires="True",
+                        ensures="len(result) == len(xs) and all(result[i] == TREE(xs[i]) for i in range(len(xs)))",
+                        spec={"TREE": lambda x: SObj("Tree", ex.NT(sym.lift(x)))})
+
+        def setup(args, ns):
+            ex.axioms()
+            args["xs"] = ex.children("xs", 0)
+
+        def call(ns, a):
+            return ns["tuple_impl"](a["xs"])
+        try:
+            fr = vc.verify(c, call, make_ns, max_paths=50, timeout_ms=20000, setup=setup)
+        except vc.Unsupported as e:
+            return core.undecided("engine-V", str(e), time.time() - t0)
+        return _fr_outcome(fr, "tuple handler")
+    out.append(Ob("C19.induction[tuple]", "proof", [SE + ":expression_tuple_from_tuple_of_sympy_args"], run_tuple,
+                  "the tuple handler maps expression_from_sympy over a tuple of ANY length, element-wise and in order (this is what the Add / Mul steps assume for their args)", timeout=300))
+
+    # refusal: node classes the translator does not know, and function names the dialect does not know
+    def run_refuse():
+        import time
+        t0 = time.time()
+        q = 0
+        try:
+            ctx = sym.Ctx([])
+            sym.set_cur(ctx)
+            ns = make_ns()
+            ex.axioms()
+            try:
+                roundtrip(ns, ex.FOther(ctx.fresh("node", sym.Obj), (ex.child("a"),)))
+                return core.refuted("shadow-execution", "a node of a class the translator does not know was translated instead of refused")
+            except NotImplementedError:
+                q += 1
+            for name in ("sinh", "log", "Abs", "atan", "sign"):
+                try:
+                    roundtrip(ns, ex.FUNCS[name](ctx.fresh("node", sym.Obj), (ex.child("a"),)))
+                    return core.refuted("shadow-execution", f"a function the dialect does not know ({name}) was translated instead of refused")
+                except (ValueError, NotImplementedError):
+                    q += 1
+            try:
+                ns["tr"]["translate_expression"](ns["FunctionCall"]("arcsinh", (1,)), ns["se"]["SYMPY_DIALECT"])
+                return core.refuted("shadow-execution", "unknown function name accepted by translate_function_call")
+            except ValueError:
+                q += 1
+        except sym.Unsupported as e:
+            return core.undecided("engine-V", str(e), time.time() - t0)
+        finally:
+            sym.set_cur(None)
+        return core.discharged("shadow-execution", time.time() - t0, queries=q)
+    out.append(Ob("C19.induction[refusal]", "proof", [SE + ":expression_from_sympy", TR + ":translate_function_call"], run_refuse,
+                  "an abstract node of an unknown class is refused with NotImplementedError and a function node whose name the dialect does not know with ValueError, whatever the children", timeout=300))
+    return out
+
+
+def _fr_outcome(fr, what):
+    names = sorted(fr.obligations)
+    if fr.undecided_reason:
+        return core.undecided("engine-V", f"{fr.undecided_reason} (after {fr.paths} paths, {fr.vcs} VCs)", fr.seconds)
+    if not names:
+        return core.undecided("engine-V", "no obligation generated (vacuity guard)", fr.seconds)
+    if not fr.canary_ok:
+        return core.undecided("engine-V", "canary: no normal exit reachable", fr.seconds)
+    bad = [n for n in names if fr.obligations[n]["status"] == "refuted"]
+    und = [n for n in names if fr.obligations[n]["status"] == "undecided"]
+    if bad:
+        d = fr.obligations[bad[0]]
+        return core.refuted("z3", f"{what}: obligation {bad[0]} fails: {d.get('detail','')[:200]} | counter-model {d.get('model')} | {str(d.get('formula'))[:300]}",
+                            cex={"obligation": bad[0], "model": d.get("model"), "all_failed": bad}, seconds=fr.seconds, queries=fr.vcs)
+    if und:
+        return core.undecided("z3", f"{und[0]}: {fr.obligations[und[0]].get('detail','')[:300]}", fr.seconds)
+    return core.discharged("+".join(sorted({b for n in names for b in fr.obligations[n]["backends"]})), fr.seconds, queries=fr.vcs,
+                           sample={"paths": fr.paths, "vcs": fr.vcs, "obligations": names[:20]})
+
+
 def build(tier, seed):
     obs = []
     fb = vprop.enum_ob("x", [], lambda: [(i, "quick") for i in range(4)], _check_tree, "").run
+    for o in _induction_obs():
+        o.fallback = fb
+        obs.append(o)
 
     def frame_ob(key):
         def run():
